@@ -276,7 +276,64 @@ def rule_params_forwarded_(ctx: Ctx, rep: Report) -> None:
     rule_params_forwarded(ctx, rep, "C10.params_forwarded", ('btclib.psbt_signer', 'btclib.bip322', 'btclib.tx_builder'), 40)
 
 
+def rule_witness_order(ctx: Ctx, rep: Report) -> None:
+    """C10.witness_order: a combinator's script runs its arguments left to
+    right and each consumes the witness from the *top* of the stack, so what
+    feeds the first argument comes *last* in the witness: in the satisfier's
+    `_and_input`, `_or_input` and `_andor_input` every `_both(a, b)` that joins
+    two arguments' stacks puts the first argument's (the function's first
+    `_Inputs` parameter) second. Swapped, each sub-script is fed the other's
+    input and the engine refuses what `satisfy` handed out."""
+    rule = "C10.witness_order"
+    MSQ = "btclib.descriptors.miniscript"
+    n = 0
+    for name in ("_and_input", "_or_input", "_andor_input"):
+        fi = ctx.func(f"{MSQ}.{name}")
+        subs = [p_.arg for p_ in fi.node.args.args if p_.annotation is not None and str(norm(p_.annotation)) == "_Inputs"]
+        if len(subs) < 2:
+            rep.unknown(rule, name, fi.where(), "the arguments' _Inputs parameters are not found")
+            continue
+        first = subs[0]
+        for c in own_nodes(fi.node):
+            if not (isinstance(c, ast.Call) and call_name(c) == "_both" and len(c.args) == 2):
+                continue
+            bases = [a.value.id if isinstance(a, ast.Attribute) and isinstance(a.value, ast.Name) else None for a in c.args]
+            if None in bases or bases[0] == bases[1] or not set(bases) <= set(subs):
+                continue
+            n += 1
+            # the earlier-run argument's stack comes second; between two later ones, the later-run comes first
+            order_ok = subs.index(bases[1]) < subs.index(bases[0])
+            rep.ob(rule, f"{name}:{norm(c)}", order_ok, fi.where(c), f"{bases[1]} runs before {bases[0]} and its input is on top" if order_ok else
+                   f"`{norm(c)}` puts the stack of `{bases[0]}` under that of `{bases[1]}`, but `{bases[0]}` runs first and reads the top: each is fed the other's input")
+    rep.floor(rule, 8)
+
+
+def rule_every_leaf_named(ctx: Ctx, rep: Report) -> None:
+    """C10.every_leaf_named: the Updater names, for each key, *every* leaf the
+    key signs in (PSBT_IN_TAP_BIP32_DERIVATION's leaf hashes), and the signer
+    signs exactly the leaves named: the de-duplication that builds the list
+    skips a leaf hash only if that same hash is already in it -- never because
+    the list is simply not empty."""
+    rule = "C10.every_leaf_named"
+    fi = ctx.func("btclib.descriptors.descriptors.TrDescriptor._taproot_hd_key_paths")
+    m: dict[str, str] = {}
+    app = PT.find(fi.node, "$hs.append($h)", m)
+    if app is None:
+        rep.unknown(rule, "_taproot_hd_key_paths", fi.where(), "no `<list>.append(<hash>)`: shape not recognised")
+        return
+    g = ctx.cfg(fi)
+    facts = g.facts_at_ast(app)
+    guarded_by_membership = PT.fact(facts, f"{m['h']} not in {m['hs']}") or PT.fact(facts, f"{m['h']} in {m['hs']}", False)
+    other_guard = [str(t) for t, p_ in facts if m["hs"] in str(t) and not (m["h"] in str(t))]
+    ok = guarded_by_membership or not any(m["hs"] in str(t) for t, _ in facts)
+    rep.ob(rule, "leaf_hash_appended_unless_present", ok and not (other_guard and not guarded_by_membership), fi.where(app),
+           "a leaf hash is skipped only when it is already listed" if ok else
+           f"the leaf hash is appended under `{other_guard}`: a key in two different leaves is given the first one only, and the signer never signs the second")
+
+
 RULES = [
+    ("C10.witness_order", rule_witness_order),
+    ("C10.every_leaf_named", rule_every_leaf_named),
     ("C10.params_forwarded", rule_params_forwarded_),
     ("C10.sighash_commits", rule_sighash_commits),
     ("C10.params_used", rule_params_used),
@@ -289,6 +346,11 @@ RULES = [
 ]
 
 CONTROLS = [
+    {"rule": "C10.witness_order", "name": "or_d dissatisfies with the two stacks swapped", "module": "btclib.descriptors.miniscript",
+     "edit": lambda ctx: M.sub_expr(ctx, "btclib.descriptors.miniscript._or_input", lambda n: isinstance(n, ast.Return) and "_both(z.dsat, x.dsat)" in norm(n) and isinstance(parent(n), ast.If) and "or_d" in norm(parent(n).test),
+                                    "return _Inputs(satisfaction, _both(x.dsat, z.dsat))")},
+    {"rule": "C10.every_leaf_named", "name": "only the first leaf of a key is named", "module": "btclib.descriptors.descriptors",
+     "edit": lambda ctx: M.sub_expr(ctx, "btclib.descriptors.descriptors.TrDescriptor._taproot_hd_key_paths", M.is_text("hash_ not in hashes"), "not hashes")},
     {"rule": "C10.params_forwarded", "name": "the key-path signer does not hand the merkle root on", "module": "btclib.psbt_signer",
      "edit": lambda ctx: M.sub_expr(ctx, "btclib.psbt_signer.SoftwareSigner.sign_schnorr", M.is_text("output_prvkey_from_merkle_root(prv_key, merkle_root)"), "output_prvkey_from_merkle_root(prv_key)")},
     {"rule": "C10.sighash_commits", "name": "SINGLE|ANYONECANPAY commits to no output", "module": "btclib.script.sig_hash",
